@@ -36,6 +36,7 @@ for cid in $id $extra; do
   if [ $rc -eq 1 ]; then r="CAUGHT by $cid: $(echo "$out" | grep -m1 violated | cut -c1-300)"; elif [ $rc -eq 0 ]; then r="MISSED by $cid"; else r="ERROR($rc) in $cid: $(echo "$out" | tail -2 | tr '\n' ' ' | cut -c1-300)"; fi
   echo "   $r"; results="$results$r\n"
 done
+git -C $V checkout -q -- evidence 2>/dev/null  # evidence written against a mutated tree is not evidence
 python3 - "$S" "$id" "$k" "$clean_rc" "$mut_rc" "$base" "$(printf "$results")" <<'PY'
 import json, sys
 S,id,k,crc,mrc,base,results=sys.argv[1:8]
